@@ -34,6 +34,7 @@ type Op struct {
 	Size   int    `json:"size"`
 	Seed   int64  `json:"seed"`
 	FailAt int    `json:"fail_at"` // streamed ops: reader returns an error after this many bytes (-1 = never)
+	EOFAt  int    `json:"eof_at"`  // append only: the source stream ends cleanly (io.EOF) after this many bytes although appendSize promised more (-1 = never)
 	Part   int    `json:"part"`    // append: bytes already staged in <key>.part
 	Task   int    `json:"task"`    // ops with different task numbers run concurrently
 }
@@ -110,7 +111,7 @@ func genC08(r *simrt.Rand, tier string) any {
 	}
 	concurrent := r.Chance(20)
 	for i := 0; i < n; i++ {
-		op := Op{Kind: kinds[r.Intn(len(kinds))], Key: keys[r.Intn(len(keys))], Size: []int{0, 1, 10, 300, 5000, 70000}[r.Intn(6)], Seed: int64(r.Intn(1 << 20)), FailAt: -1}
+		op := Op{Kind: kinds[r.Intn(len(kinds))], Key: keys[r.Intn(len(keys))], Size: []int{0, 1, 10, 300, 5000, 70000}[r.Intn(6)], Seed: int64(r.Intn(1 << 20)), FailAt: -1, EOFAt: -1}
 		switch r.Intn(4) {
 		case 0:
 			op.Via = "manifest"
@@ -121,8 +122,13 @@ func genC08(r *simrt.Rand, tier string) any {
 		if (op.Kind == "writereader" || op.Kind == "append") && r.Chance(35) && op.Size > 0 {
 			op.FailAt = r.Intn(op.Size)
 		}
+		op.EOFAt = -1
 		if op.Kind == "append" {
 			op.Part = r.Intn(op.Size + 1)
+			if op.FailAt < 0 && op.Size-op.Part > 1 && r.Chance(30) {
+				// a resumed transfer whose peer closes the stream early without an error
+				op.EOFAt = r.Intn(op.Size - op.Part - 1)
+			}
 		}
 		if concurrent && r.Chance(50) {
 			// the second task works on its own keys (same directories): the
@@ -279,7 +285,11 @@ func exec(p *C08Plan, cfg simrt.Config, root string, f Fault) *execResult {
 							os.WriteFile(full+".part", data[:op.Part], 0o600)
 						}
 					}
-					err = be.AppendReader(ctx, key, &failingReader{r: bytes.NewReader(data[op.Part:]), failAt: op.FailAt}, int64(len(data)-op.Part))
+					tail := data[op.Part:]
+					if op.EOFAt >= 0 && op.EOFAt < len(tail) {
+						tail = tail[:op.EOFAt] // clean early EOF; appendSize below still promises the full remainder
+					}
+					err = be.AppendReader(ctx, key, &failingReader{r: bytes.NewReader(tail), failAt: op.FailAt}, int64(len(data)-op.Part))
 				case "delete":
 					err = be.Delete(ctx, key)
 				case "stat":
